@@ -598,7 +598,7 @@ func seekRun(c *driver.Ctx, depth int, chunked bool) (func(), func(*vs.Result) *
 
 // ---- (c) single-field corruption of the responses of descriptor/body-returning reads
 
-var corruptKinds = []string{"digest-wrong", "digest-wrong-sha512", "digest-malformed", "length+1", "length-1", "length-absent", "ctype-other", "ctype-garbage"}
+var corruptKinds = []string{"digest-wrong", "digest-wrong-sha512", "digest-malformed", "length+1", "length-1", "length-zero", "length-absent", "ctype-other", "ctype-garbage"}
 
 func corruptJobs(d *DAG) []driver.Job {
 	var out []driver.Job
@@ -619,6 +619,9 @@ func corruptJobs(d *DAG) []driver.Job {
 }
 
 func corruptOne(c *driver.Ctx, d *DAG, p Profile, rd string, at int, kind string) {
+	if kind == "length-zero" && rd != "fetch-blob" && rd != "fetch-manifest" {
+		return // judged only where a descriptor with its size was passed in
+	}
 	repo, g := newRepo(p, optsets()[0])
 	rr := g.Repo(repoName)
 	b2, m1 := d.Nodes[1], d.Nodes[2]
@@ -672,7 +675,7 @@ func corruptOne(c *driver.Ctx, d *DAG, p Profile, rd string, at int, kind string
 	switch kind {
 	case "digest-wrong", "digest-wrong-sha512", "digest-malformed":
 		contradicts = true
-	case "length+1", "length-1":
+	case "length+1", "length-1", "length-zero":
 		contradicts = byDesc
 	case "ctype-other", "ctype-garbage":
 		contradicts = rd == "fetch-manifest"
